@@ -27,6 +27,7 @@ PROPERTY NoRecvRespected
 PROPERTY FloodRule
 PROPERTY AllRule
 PROPERTY InOrder
+PROPERTY TableInOrder
 PROPERTY MissRule
 PROPERTY CountersExact
 PROPERTY PortModExact
